@@ -303,6 +303,7 @@ bool Xml::Private::parse(const char* data, Element& element)
 {
   pos.line = 1;
   pos.pos = pos.lineStart = data;
+  element.clear(); // the parsed element replaces what the target held (attributes and content are appended below)
 
   skipSpace();
   while(*pos.pos == '<' && pos.pos[1] == '?')
